@@ -233,11 +233,9 @@ def run(ctx):
     ea, eb = ca.expr(f1["body"]), cb.expr(f2["body"])
     ck.ob("C16-R4", "-", "flag_excluded==flag_excluded_input_devices", ea == eb, detail=None if ea == eb else "; ".join(hircanon.diff(ea, eb))[:400])
     for fn, h in (("remapping_loop::flag_excluded", f1), ("remapping_loop::flag_excluded_input_devices", f2)):
-        ms = [c for c in hirq.calls(h["body"]) if ("WildMatch" in (hirq.callee_of(c) or "") and (hirq.callee_of(c) or "").endswith("::matches"))]
-        ok = len(ms) == 1 and any(x.get("k") == "Field" and x.get("name") == "name" for x in hirq.walk(ms[0]["args"][0])) if ms else False
-        ck.ob("C16-R4", fn, "patterns-are-matched-against-the-device-name", ok)
-        anyc = [c for c in hirq.calls(h["body"]) if (hirq.callee_of(c) or "").endswith("Iterator::any")]
-        ck.ob("C16-R4", fn, "excluded-iff-any-pattern-matches", len(anyc) == 1)
+        sites, anys = _match_sites(ctx, h, {}, 0)
+        ck.ob("C16-R4", fn, "patterns-are-matched-against-the-device-name", len(sites) == 1 and sites[0])
+        ck.ob("C16-R4", fn, "excluded-iff-any-pattern-matches", anys == 1)
     # entry points: every call path from them to open_device goes through a flagger and a `!excluded` filter
     cg = ctx.callgraph()
     for fn in ("remapping_loop::do_remapping_loop_all_devices", "remapping_loop::do_remapping_loop_auto_all_devices"):
@@ -551,3 +549,45 @@ def r5_mask_words(ctx, ck):
                 okb = okb and is_test and not ins
         okb = okb and seen == {True, False}
     ck.ob("C16-R5", fn, "a-set-bit-b-of-word-w-yields-number-64*w+b,a-clear-bit-nothing", okb)
+
+
+def _is_device_name(e, env):
+    """does the expression read the device's `name`: a `.name` field, a parameter bound to one at the call, or a call of a
+    closure parameter whose closure (at the call site) reads it"""
+    for x in hirq.walk(e):
+        if x.get("k") == "Field" and x.get("name") == "name":
+            return True
+        if x.get("k") == "Path" and x["res"].get("k") == "local" and env.get(x["res"]["id"]) == "name":
+            return True
+        if x.get("k") == "Call" and x["f"].get("k") == "Path" and x["f"]["res"].get("k") == "local":
+            b = env.get(x["f"]["res"]["id"])
+            if isinstance(b, tuple) and b[0] == "closure" and _is_device_name(b[1]["body"], b[2]):
+                return True
+    return False
+
+
+def _match_sites(ctx, h, env, depth):
+    """(WildMatch::matches call sites as `argument is the device name`, number of Iterator::any calls), looking through
+    crate-local helpers that are not on the pinned tree (a shared helper the two flaggers were merged into)"""
+    from ..splice import known_functions
+    sites, anys = [], 0
+    for c in hirq.calls(h["body"]):
+        cal = hirq.callee_of(c) or ""
+        if "WildMatch" in cal and cal.endswith("::matches"):
+            sites.append(_is_device_name(c["args"][0], env))
+        elif cal.endswith("Iterator::any"):
+            anys += 1
+        elif depth < 2 and cal in ctx.F.hir and cal not in known_functions() and "{closure" not in cal:
+            hh = ctx.hir(cal)
+            env2 = {}
+            for prm, arg in zip(hh["params"], hirq.call_args(c)):
+                if prm.get("k") != "Binding":
+                    continue
+                if arg.get("k") == "Closure":
+                    env2[prm["id"]] = ("closure", arg, env)
+                elif _is_device_name(arg, env):
+                    env2[prm["id"]] = "name"
+            s2, a2 = _match_sites(ctx, hh, env2, depth + 1)
+            sites += s2
+            anys += a2
+    return sites, anys
